@@ -2,7 +2,8 @@
 import numpy as np
 
 from pymbolic.mapper.stringifier import (
-    PREC_CALL, PREC_LOGICAL_OR, PREC_NONE, PREC_POWER, PREC_PRODUCT, StringifyMapper)
+    PREC_CALL, PREC_LOGICAL_OR, PREC_NONE, PREC_POWER, PREC_PRODUCT, PREC_SUM,
+    StringifyMapper)
 
 
 __copyright__ = "Copyright (C) 2014 Matt Wala"
@@ -29,6 +30,27 @@ THE SOFTWARE.
 
 
 class _PowerPrintingMixin:
+    def join_operands(self, sep, operands, prec, paren_types, *args, **kwargs):
+        """Print *operands* joined by *sep*, with parentheses around each one
+        that is an instance of *paren_types* (whatever its precedence).
+        """
+        def rec_operand(operand):
+            result = self.rec(operand, prec, *args, **kwargs)
+            if isinstance(operand, paren_types):
+                result = "(%s)" % result
+            return result
+
+        return sep.join(rec_operand(operand) for operand in operands)
+
+    def map_sum(self, expr, enclosing_prec, *args, **kwargs):
+        # The grouping of a nested sum is part of its floating point value:
+        # "a + (b + c)" is not "a + b + c".
+        from pymbolic.primitives import Sum
+        return self.parenthesize_if_needed(
+                self.join_operands(
+                    " + ", expr.children, PREC_SUM, (Sum,), *args, **kwargs),
+                enclosing_prec, PREC_SUM)
+
     def map_power(self, expr, enclosing_prec, *args, **kwargs):
         # "**" associates to the right in both target languages, so a power
         # that occurs as the base of another power needs parentheses.
@@ -111,20 +133,15 @@ class FortranExpressionMapper(_PowerPrintingMixin, StringifyMapper):
                 enclosing_prec, PREC_CALL)
 
     def map_product(self, expr, enclosing_prec, *args, **kwargs):
-        # This differs from the superclass only by adding spaces
+        # This differs from the superclass by adding spaces
         # around the operator, which provide an opportunity for
-        # line breaking.
-        from pymbolic.primitives import FloorDiv, Quotient, Remainder
-
-        def rec_factor(factor):
-            result = self.rec(factor, PREC_PRODUCT, *args, **kwargs)
-            # "a * (b / c)" is not "a * b / c".
-            if isinstance(factor, (Quotient, FloorDiv, Remainder)):
-                result = "(%s)" % result
-            return result
-
+        # line breaking, and by keeping the grouping of a nested product:
+        # "a * (b / c)" is not "a * b / c", "a * (b * c)" not "a * b * c".
+        from pymbolic.primitives import FloorDiv, Product, Quotient, Remainder
         return self.parenthesize_if_needed(
-                " * ".join(rec_factor(child) for child in expr.children),
+                self.join_operands(
+                    " * ", expr.children, PREC_PRODUCT,
+                    (Product, Quotient, FloorDiv, Remainder), *args, **kwargs),
                 enclosing_prec, PREC_PRODUCT)
 
     def map_comparison(self, expr, enclosing_prec):
@@ -215,6 +232,16 @@ class PythonExpressionMapper(_PowerPrintingMixin, StringifyMapper):
         if expr.name.startswith("<func>"):
             return self._name_manager.name_function(expr.name)
         return self._name_manager[expr.name]
+
+    def map_product(self, expr, enclosing_prec, *args, **kwargs):
+        # As in the superclass, but a nested product keeps its parentheses:
+        # "a*(b*c)" is not "a*b*c" in floating point.
+        from pymbolic.primitives import FloorDiv, Product, Quotient, Remainder
+        return self.parenthesize_if_needed(
+                self.join_operands(
+                    "*", expr.children, PREC_PRODUCT,
+                    (Product, Quotient, FloorDiv, Remainder), *args, **kwargs),
+                enclosing_prec, PREC_PRODUCT)
 
     def map_numpy_array(self, expr, *args):
         if len(expr.shape) > 1:
